@@ -59,6 +59,7 @@ def gen(seed, tier="quick"):
     r = rng(seed, "program")
     mode = r.choice(("ill", "ill", "ill", "misuse"))
     fam = c02.gen_family(r, sym_ok=True, ill_bias=1.0 if mode == "ill" else 0.0)
+    fam.pop("vals2", None)  # C13 uses one value set per family
     extra = None
     if r.random() < 0.35:
         extra = r.choice(("tree", "union"))
